@@ -8,3 +8,4 @@ CONSTANTS
   BC <- CBC
   BBit <- CBBit
   BBase <- CBBase
+  RekeyOp <- IsapRekeyBits
